@@ -11,7 +11,7 @@ set -u
 export GOFLAGS=-mod=mod GOPROXY=off GOSUMDB=off GOTOOLCHAIN=local
 P="$1"; V="$2"; shift 2
 CHECKS="${*:-$P}"
-SRC="/tmp/seed/$P-out/$V"
+SRC="${SEED_ROOT:-/tmp/seed}/$P-out/$V"
 OUT="/verif/seeded/$P-$V"
 WT="/tmp/seedv/$P-$V"
 [ -f "$SRC/patch.diff" ] || { echo "no $SRC/patch.diff"; exit 2; }
@@ -53,7 +53,7 @@ git -C /repo worktree remove --force "$WT"
 # remove only this worktree's alternate-repo caches (other runs may be using theirs)
 H=$(printf %s "$WT" | sha256sum | cut -c1-8)
 T=$(echo "$WT" | cksum | cut -d' ' -f1)
-rm -rf "/verif/.work/e2-alt-$H" "/verif/.work/alt-$T" /verif/bin/*.alt-* 2>/dev/null
+rm -rf "/verif/.work/e2-alt-$H" "/verif/.work/alt-$T" /verif/bin/*.alt-$T 2>/dev/null
 python3 - "$SRC/meta.json" "$OUT/meta.json" "$BUILD" "$DEMO_WITH" "$DEMO_WITHOUT" "$TESTS" "$RES" <<'EOF'
 import json,sys
 src,dst,build,dw,dwo,tests,res=sys.argv[1:8]
